@@ -179,6 +179,9 @@ def generate(rng, tier):
             b = {"o": "leaf", "v": base, "how": "set", "raw": False}
             cases.append({"kind": "fields", "type": t, "base": b, "plan": plan(rng, tygen.field_offset_ops(t, b), budget)})
             streams.append("targeted")
+            if base == [0]:
+                cases.append(dict(cases[-1], default_base=True))
+                streams.append("targeted")
     inner8 = {"k": "struct", "name": "ns.In8", "ver": [1, 0], "fs": [["v", u8]]}
     for w, cap in [(1, 8), (4, 2), (12, 2), (2, 4), (3, 8), (1, 16)]:
         e = {"k": "prim", "p": "bool"} if w == 1 else {"k": "prim", "p": "uint", "w": w, "c": "sat"}
@@ -192,7 +195,11 @@ def generate(rng, tier):
         if r < 6:
             t = tygen.gen_composite(rng, rng.choice([1, 2, 2, 3]), names)
             b = gen_base(rng)
+            if rng.random() < 0.2:
+                b = {"o": "leaf", "v": [0], "how": "set", "raw": False}
             cases.append({"kind": "fields", "type": t, "base": b, "plan": plan(rng, tygen.field_offset_ops(t, b), budget)})
+            if b["o"] == "leaf" and b["v"] == [0]:
+                cases[-1]["default_base"] = True
             if rng.random() < 0.5:
                 cases[-1]["abandon"] = [rng.choice([0, 1, 1, 2])] + ([rng.choice([1, 2])] if rng.random() < 0.3 else [])
         elif r < 8:
@@ -245,7 +252,9 @@ def _run_impl_raw(cases):
                     inner_it = T.iterate_fields_with_offsets()
                     next(inner_it, None)
                     del it, inner_it
-                for (f, off), pl in zip(T.iterate_fields_with_offsets(base), case["plan"] + [{"mods": [], "exp": False}] * 1000):
+                # the documented default of the base offset is the empty prefix {0}: leaving the argument out must give the same walk
+                walk = T.iterate_fields_with_offsets() if case.get("default_base") else T.iterate_fields_with_offsets(base)
+                for (f, off), pl in zip(walk, case["plan"] + [{"mods": [], "exp": False}] * 1000):
                     res.append({"name": f.name or None, "off": observe(off, pl)})
                 out.append({"fields": res})
             elif case["kind"] == "elems":
